@@ -535,7 +535,7 @@ def cholesky_solve(a, bb):
     """
     bw = a.shape[0]
     n = bb.shape[0] - bw
-    x = np.zeros(bb.shape, dtype=bb.dtype)
+    x = np.zeros(bb.shape, dtype=np.result_type(bb.dtype, np.float32))
     x[0:n] = cho_solve_banded((a[:, 0:n], True), bb[0:n])
     return x
 
